@@ -348,6 +348,8 @@ class Check:
     def need_cover(self, names):
         """Vacuity guard: every named action / branch tag must have been exercised."""
         missing = [n for n in names if self.cover.get(n, 0) == 0]
+        if missing and self.violations:
+            return      # verdicts already failed on what was explored; they are reported, not masked by the guard
         if missing:
             raise MachineryError('vacuity guard: never exercised: %s' % missing)
 
